@@ -64,7 +64,7 @@ TraceReset ==
 
 Same == UNCHANGED <<tmap, omap, xres>>
 FOf(e) == IF e.f = "cycle" THEN CycleF(e.path) ELSE IF e.f = "none" THEN NoF ELSE [t |-> e.f, p |-> <<>>]
-TEnd(i) == IF Opaque /\ i \in DOMAIN xres THEN EndWith(i, TRUE, xres[i].v, xres[i].f) ELSE End(i)
+TEnd(i) == End(i)
 Skip == UNCHANGED vars /\ Same /\ Consume
 
 EvOpBegin == Is("op.begin") /\ OpBegin /\ step' = E.step /\ Same /\ Consume
@@ -87,7 +87,7 @@ EvRelease ==
   /\ Is("release") /\ Known(E.t)
   /\ LET p == tmap[E.t] IN
      \/ acts[p].pc = "post" /\ acts[p].nw /\ acts[p].hold = E.held /\ Post(p, FALSE)
-     \/ acts[p].pc = "end" /\ acts[p].async /\ acts[p].hold = E.held /\ TEnd(p)
+     \/ acts[p].pc \in {"ret", "pan"} /\ acts[p].async /\ acts[p].hold = E.held /\ TEnd(p)
      \/ acts[p].pc = "rexit" /\ acts[p].hold = E.held /\ RunExit1(p)
      \/ \E c \in DOMAIN acts : acts[c].par = p /\ ~acts[c].async /\ acts[p].hold = E.held /\ WaitRelease(c)
   /\ Same /\ Consume
@@ -95,7 +95,7 @@ EvRelease ==
 EvTransfer ==
   /\ Is("transfer") /\ Known(E.from)
   /\ LET f == tmap[E.from] IN
-     IF Known(E.t) /\ acts[f].par = tmap[E.t] /\ acts[f].pc = "end"
+     IF Known(E.t) /\ acts[f].par = tmap[E.t] /\ acts[f].pc \in {"ret", "pan"}
      THEN /\ ~acts[f].async /\ acts[f].hold = E.fromheld /\ TEnd(f) /\ Same /\ Consume    \* transfer back
      ELSE Skip                                                                          \* steal: part of Cas
 
@@ -139,15 +139,16 @@ EvLeaderReset == Is("lacq.reset") /\ Known(E.t) /\ LeaderReset(tmap[E.t]) /\ Sam
 (* Execute returned normally: the value and fatal class the model computes for this activation *)
 EvExecRet ==
   /\ Is("exec.ret") /\ Known(E.t)
-  /\ LET a == acts[tmap[E.t]] IN
+  /\ LET i == tmap[E.t] a == acts[i] IN
      /\ a.pc = "end" /\ a.key = E.k
-     /\ IF Opaque THEN xres' = Bind(xres, tmap[E.t], [v |-> E.v, f |-> FOf(E)])
-        ELSE /\ IF a.cerr THEN E.f = "cancel"
+     /\ IF Opaque THEN ExecRetWith(i, TRUE, E.v, FOf(E))
+        ELSE /\ ~Panics(a)
+             /\ IF a.cerr THEN E.f = "cancel"
                 ELSE /\ E.f = FClass(a.af)
                      /\ (a.af.t = "none" /\ E.v >= 0) => E.v = Final(a.acc, ver[a.key])
                      /\ a.af.t = "cycle" => PathOf(E) = a.af.p
-             /\ UNCHANGED xres
-  /\ UNCHANGED <<vars, tmap, omap>> /\ Consume
+             /\ ExecRet(i)
+  /\ Same /\ Consume
 
 EvClose ==
   /\ Is("close") /\ Known(E.t)
@@ -198,7 +199,10 @@ EvIgnored == (Is("exec.begin") \/ Is("evict.ret")) /\ Skip
 (* local steps without an event *)
 Silent ==
   /\ l <= Len(TraceLog)
-  /\ \E i \in DOMAIN acts : \E c \in BOOLEAN : (acts[i].pc = "post" /\ ~acts[i].nw /\ Post(i, c)) \/ ReadCause(i, c)
+  /\ \E i \in DOMAIN acts :
+       \/ \E c \in BOOLEAN : (acts[i].pc = "post" /\ ~acts[i].nw /\ Post(i, c)) \/ ReadCause(i, c)
+       \/ acts[i].pc = "end" /\ Panics(acts[i]) /\ ~Opaque /\ ExecRet(i)      \* a panic has no exec.ret event
+       \/ acts[i].pc = "end" /\ Opaque /\ acts[i].key \in cfg.pan /\ ExecRet(i)
   /\ UNCHANGED <<l, tmap, omap, xres>>
 
 TNext ==
